@@ -14,8 +14,8 @@ from collections import Counter
 VERIF = os.path.dirname(os.path.dirname(os.path.abspath(__file__)))
 REPO = os.path.abspath(os.environ.get('RXSCI_REPO', '/repo'))
 WORK = os.path.join(VERIF, '.work')          # scratch, git-ignored, never under /tmp
-EVIDENCE_DIR = os.path.join(VERIF, 'evidence')
-REPLAY_DIR = os.path.join(VERIF, 'replays')
+EVIDENCE_DIR = os.environ.get('VERIF_EVIDENCE_DIR') or os.path.join(VERIF, 'evidence')   # overridden only by selftest
+REPLAY_DIR = os.environ.get('VERIF_REPLAY_DIR') or os.path.join(VERIF, 'replays')
 FINDINGS_FILE = os.path.join(VERIF, 'known_findings.json')
 
 
